@@ -35,7 +35,7 @@ COMPONENTS = {'real': ['enspara.cluster.util (reassign, batch_reassign, compute_
               'stub': ['multiprocessing (simpool)', 'joblib.Parallel/delayed (simulated on simpool)', 'psutil.virtual_memory (drawn size)',
                        'auto_nprocs (drawn)', 'MPI library (simmpi)']}
 ASSUMPTIONS = ['RMSD values are compared with a float64 Kabsch RMSD; the allowed deviation is an error model of the float32 computation '
-               '(1024 eps32 x summed squared coordinates per atom, propagated through the square root); minimality is demanded up to that '
+               '(4096 eps32 x summed squared coordinates per atom, propagated through the square root); minimality is demanded up to that '
                'tolerance; ties may be broken either way',
                'the simulated memory always leaves room for the longest file plus one frame (the equality case is outside the statement)']
 REACH_EXPECTED = ['multi_batch_reassign', 'single_batch_reassign', 'centers_as_trajectory', 'centers_as_list', 'two_topologies',
@@ -46,7 +46,7 @@ REACH_EXPECTED = ['multi_batch_reassign', 'single_batch_reassign', 'centers_as_t
 def rmsd64(X, c):
     """optimal-superposition RMSD in float64 (Kabsch); X: (n, atoms, 3), c: (atoms, 3).  Returns (rmsd, tol) per frame,
     where tol bounds what a float32 implementation of the same quantity may deviate: the mean squared deviation is a
-    difference of O(G) terms (G = summed squared centred coordinates per atom), so its float32 error is up to ~ 1024 eps32 G (mdtraj finds the leading eigenvalue by Newton iteration in float32) and
+    difference of O(G) terms (G = summed squared centred coordinates per atom), so its float32 error is up to ~ 4096 eps32 G (mdtraj finds the leading eigenvalue by Newton iteration in float32) and
     the error of its square root is that divided by 2 rmsd (or its square root, near zero)."""
     X = np.asarray(X, dtype=np.float64)
     c = np.asarray(c, dtype=np.float64)
@@ -64,7 +64,7 @@ def rmsd64(X, c):
         tr = S[0] + S[1] + d * S[2]
         msd = max(0.0, (Gx + Gc - 2 * tr) / N)
         out[i] = np.sqrt(msd)
-        delta = 1024 * np.finfo(np.float32).eps * (Gx + Gc) / N
+        delta = 4096 * np.finfo(np.float32).eps * (Gx + Gc) / N
         tol[i] = np.sqrt(msd + delta) - out[i] + 1e-6
     return out, tol
 
